@@ -7,6 +7,7 @@ import (
 	"net"
 	"sort"
 	"strconv"
+	"sync"
 	"time"
 
 	"google.golang.org/grpc"
@@ -26,7 +27,10 @@ type RawNode struct {
 	addr   string
 	conn   *grpc.ClientConn
 	cancel func()
-	mgr    *RawManager
+	// connMut protects conn and closed: the channel's sender may (re)dial while the node is being closed.
+	connMut sync.Mutex
+	closed  bool
+	mgr     *RawManager
 
 	// the default channel
 	channel *channel
@@ -73,6 +77,12 @@ func (n *RawNode) connect(mgr *RawManager) error {
 
 // dial the node and close the current connection.
 func (n *RawNode) dial() error {
+	n.connMut.Lock()
+	defer n.connMut.Unlock()
+	if n.closed {
+		// a connection created now would never be closed
+		return fmt.Errorf("node closed")
+	}
 	if n.conn != nil {
 		// close the current connection before dialing again.
 		n.conn.Close()
@@ -109,6 +119,9 @@ func (n *RawNode) close() error {
 	}
 	// important to cancel first to stop goroutines
 	n.cancel()
+	n.connMut.Lock()
+	defer n.connMut.Unlock()
+	n.closed = true
 	if n.conn == nil {
 		return nil
 	}
